@@ -57,7 +57,7 @@ def forged_variants(w, pr, r, signed):
         # signable of this proof is unknown here, so use a random-message signature and a stale one
         q["upgrade"]["signature"] = sig.split(" ")[1]
         out.append(("signature-other-key", q, False))
-        if signed.get("stale_sig"):
+        if signed.get("stale_sig") and signed["stale_sig"] != pr["upgrade"]["signature"]:
             q = copy.deepcopy(pr); q["upgrade"]["signature"] = signed["stale_sig"]
             out.append(("signature-other-length", q, False))
     return out
@@ -127,6 +127,15 @@ def run_world(pair, r, res, tier, crash_only=False):
                 else:
                     if size_only:
                         res.count("accepted-unauthenticated-size")
+                        continue
+                    # the property names the alterations that MUST be refused: block bytes, authenticated node hashes, the
+                    # signature (altered, by another key, or a genuine one for another length), fork (a hash flip in a node
+                    # the verifier never reads — a surplus node — is not authenticated and is left to the state oracle below)
+                    must_refuse = (label in ("substituted-block", "signature-other-key", "signature-other-length", "fork+1")
+                                   or label.startswith("block.value") or label.startswith("upgrade.signature"))
+                    if must_refuse:
+                        found.append(dict(key="accepted:forged", what="altered proof (%s) was ACCEPTED (the property requires it to be refused); "
+                                          "replica now reports %s" % (label, pair.impl.cmd("info X")), replay=rep))
                         continue
                     # accepted: everything the replica now believes must be the writer's
                     ib, _ = pair.do("info X")
